@@ -892,15 +892,27 @@ func deepGet(m map[string]any, keys ...string) (any, bool) {
 	return m, true
 }
 
-func deepSet(m map[string]any, keys []string, value any) {
+// deepSet stores value under the nested keys. It reports false when the keys
+// conflict with what is already there: a key used both as a value and as an
+// object (p[a]=1&p[a][b]=2).
+func deepSet(m map[string]any, keys []string, value any) bool {
 	for i := 0; i < len(keys)-1; i++ {
 		key := keys[i]
 		if _, ok := m[key]; !ok {
 			m[key] = make(map[string]any)
 		}
-		m = m[key].(map[string]any)
+		next, ok := m[key].(map[string]any)
+		if !ok {
+			return false
+		}
+		m = next
 	}
-	m[keys[len(keys)-1]] = value
+	last := keys[len(keys)-1]
+	if _, isObject := m[last].(map[string]any); isObject {
+		return false
+	}
+	m[last] = value
+	return true
 }
 
 func findNestedSchema(parentSchema *openapi3.SchemaRef, keys []string) (*openapi3.SchemaRef, error) {
@@ -934,7 +946,9 @@ func makeObject(props map[string]string, schema *openapi3.SchemaRef) (map[string
 			p := pathFromKeys(keys)
 			return nil, &ParseError{path: p, Kind: KindInvalidFormat, Reason: "array items must be set with indexes"}
 		}
-		deepSet(mobj, keys, value)
+		if !deepSet(mobj, keys, value) {
+			return nil, &ParseError{path: pathFromKeys(keys), Kind: KindInvalidFormat, Reason: "a key is used both as a value and as an object"}
+		}
 	}
 	r, err := buildResObj(mobj, nil, "", schema)
 	if err != nil {
